@@ -45,9 +45,9 @@ def gen_value(d: Draw, kind, n, mixed=None):
         # "all positive finite inputs over 30 orders of magnitude": a period of microseconds, a separation far inside the
         # host or of light-years - Kepler's law is a pure identity between the three stored numbers and must survive them
         v['v'] = v['v'] * 10.0 ** d.pick([-15, -12, -9, -6, -4, -3, -2, -1, 1, 2, 3, 4, 6, 9, 12, 15])
-    if _INTS[0] and kind in ('semi_major_axis', 'orbital_period') and 'nudge' not in v and d.chance(1, 4):
+    if _INTS[0] and kind in ('semi_major_axis', 'orbital_period') and 'nudge' not in v and 1.0 <= v['v'] < 2.0 ** 53 and d.chance(1, 4):
         # a whole number handed in as a Python int / an int64 array (421700000 m, 3 days): a positive finite input like any other
-        v['v'] = int(round(v['v'])) if v['v'] >= 1 else 1
+        v['v'] = int(round(v['v']))
         v['int'] = True
         return v
     if d.chance(1, 6):
